@@ -948,7 +948,7 @@ def check_c20(tier, seed, replay=None, selftest=False):
         res = [verif.validate_trace(spec, t, env=job.get("env")) for t in traces]
         # ... and the twin property itself
         tw = verif.validate_trace("TraceTwin", traces[0], env={"TRACE2": traces[1]})
-        return {"job": job, "result": tw, "trace": traces[0], "single": res}
+        return {"job": job, "result": tw, "trace": traces[0], "single": res, "traces": traces}
     work = [(exe, spec, j) for exe, spec, jobs in mix for j in jobs]
     with ThreadPoolExecutor(max_workers=WORKERS) as ex:
         outs = list(ex.map(twin, work))
@@ -956,10 +956,10 @@ def check_c20(tier, seed, replay=None, selftest=False):
         nb += len(o["job"]["behaviours"])
         ne += o["result"]["events"]
         alljobs.append(o["job"])
-        for r in o["single"]:
-            for v in r["viol"]:
-                if v["p"] not in ("C20",):
-                    chk.other[v["p"]] = chk.other.get(v["p"], 0) + 1
+        # the single executions: a call that faults on valid input counts here as in every functional check (whether and where
+        # it faults is routinely a function of hidden inputs); everything else they violate belongs to the other checks
+        collect(chk, [{"job": o["job"], "result": r, "trace": t} for r, t in zip(o["single"], o["traces"])], set(),
+                marker="HReset" if o["job"].get("driver", "hash") == "hash" and "MAXN" in (o["job"].get("env") or {}) else "Mark")
     collect(chk, outs, props, marker="Mark")
     chk.cov["evaluations"] = ne
     chk.cov["distinct_nontrivial"] = len({hashlib.sha1("\n".join(b).encode()).hexdigest() for j in alljobs for b in j["behaviours"]})
